@@ -8,7 +8,7 @@ from . import hubutil, prng
 from .hubutil import HarnessError
 
 WORKERS = int(os.environ.get("VERIF_WORKERS", "16"))
-PLAN = {"quick": (256, 10, 0), "thorough": (6000, 16, 0)}  # batches, runs per batch, (unused)
+PLAN = {"quick": (256, 10, 0), "thorough": (1500, 16, 0)}  # batches, runs per batch, (unused)
 DEFAULT_BUDGET = {"quick": 60.0, "thorough": 1200.0}
 
 RULE = ("Fault enumeration over stored headers: for every base code object (every code object, nested included, of a seeded program; module, class "
@@ -18,7 +18,8 @@ RULE = ("Fault enumeration over stored headers: for every base code object (ever
         "itself refuses to construct are counted separately. Oracle: from_code raises, or to_code() reproduces every header field exactly. Flag "
         "words alone: every subset of the interpreter's known flags (2^18; exhaustive in thorough, seeded 5% sample in quick) must convert "
         "losslessly; every single unknown bit and seeded known/unknown mixtures must raise or be preserved, judged cold and warm (IntFlag "
-        "pseudo-member cache). A case is NON-TRIVIAL when CPython accepted the altered header (so the library was actually exercised); distinct = "
+        "pseudo-member cache). History with faults: an encode/decode of a base object is interrupted (KeyboardInterrupt) at every line inside the flag / "
+        "argument-count conversion code, after which the unaltered base objects must still round-trip their exact headers. A case is NON-TRIVIAL when CPython accepted the altered header (so the library was actually exercised); distinct = "
         "distinct (base object strict fingerprint, alteration) pairs plus distinct flag words.")
 
 
@@ -99,7 +100,7 @@ def run(prop, tier):
         if a != b:
             raise HarnessError("determinism self-test failed for engine C batch on %s" % interp)
 
-    tested = rejected = objects = 0
+    tested = rejected = objects = interrupt_points = 0
     classes, verdicts, unknown_hit = {}, {}, {}
     distinct = {}
     viols = []
@@ -112,6 +113,7 @@ def run(prop, tier):
                 tested += run["tested"]
                 rejected += run["rejected_by_cpython"]
                 objects += run["objects"]
+                interrupt_points += run.get("interrupt_points", 0)
                 hubutil.merge_counts(classes, run["classes"])
                 hubutil.merge_counts(verdicts, run["verdicts"])
                 for b, n in run["bits_unknown_hit"].items():
@@ -155,7 +157,9 @@ def run(prop, tier):
     unconfirmed = 0
     for f in sorted(new)[:8]:
         v = new[f]
-        if "word" in v:
+        if v.get("history"):
+            record = {"job": dict(v["_job"], tree="<scratch>")}
+        elif "word" in v:
             record = {"word": v["word"]}
         else:
             prog = v["prog"]
@@ -199,6 +203,7 @@ def run(prop, tier):
         "distinct_base_objects": len(distinct),
         "header_alterations_accepted_by_cpython": tested,
         "header_alterations_refused_by_cpython": rejected,
+        "interrupted_history_abort_points": interrupt_points,
         "verdicts": verdicts,
         "alteration_classes": classes,
         "unknown_bit_flips_per_interpreter_and_bit": unknown_hit,
